@@ -16,8 +16,11 @@ Streams
                    (file functions only see paths inside a private temporary directory)
   misc             String(), DuplicateValue, CompareValues with the three verbs (and an unknown one)
   varinput         ExecVarInputText / ExecExpressionInputText: valid assignments, undefined names, 其, calls, garbage
+  loop-self        every list / dictionary method (complete tables) applied inside a 遍历 loop to the collection being traversed:
+                   receivers of 0–4 items × argument forms (loop variables, constants, the collection itself) × loop forms
   programs         ill-typed generated PROGRAMS through `run`: every step (random member / method / operator / index /
-                   constructor / library call / control statement on values of random types) in its own method with a
+                   constructor / library call / control statement on values of random types; loops whose body applies the
+                   collection's own methods / item writes / reassignment to the collection being traversed) in its own method with a
                    拦截异常 handler so that the run goes on after each fault; constructors for predefined names; 其 / 此
                    outside methods; nested definitions
 Correspondence Go ≈ model is checked on every `value` case the model answers (list, dictionary, number, part of the text
@@ -497,6 +500,8 @@ class PG:
         self.props = [nm for ms in t['members'].values() for k, nm in ms if k in 'gs'] + ['a', 'b', '自身', '没有此项']
         self.funcs = ['显示', '取随机数', '函', '未定法', '数', '甲'] + [nm for _, _, nm in t['libs']]
         self.k = 0
+        # methods of the two collection types (complete tables): applied to a collection inside a loop over that very collection
+        self.coll_methods = {ty: [nm for k, nm in t['members'].get(ty, []) if k == 'm'] for ty in ('array', 'hashmap')}
 
     def atom(self):
         r = self.rng.random()
@@ -556,9 +561,29 @@ class PG:
             return pad + '%s = %s' % (tgt, self.expr(2))
         if r < 0.62:
             return pad + '如果%s：\n%s    （显示：1）' % (self.expr(1), pad)
-        if r < 0.69:
+        if r < 0.64:
             names = rng.choice(['', '以项', '以键、值'])
             return pad + '%s遍历%s：\n%s    （显示：%s）' % (names, self.expr(1), pad, self.expr(1))
+        if r < 0.69:
+            # a loop whose body changes the collection it runs over (removes items, adds items, rewrites them), directly or
+            # through a copy-free path (嵌#1, 深典#“A”); the later passes must still end in a value or a Zn error
+            tgt, ty = rng.choice([('列', 'array'), ('列', 'array'), ('列', 'array'), ('嵌', 'array'), ('嵌#1', 'array'), ('典', 'hashmap'),
+                                  ('深典', 'hashmap'), ('深典#“A”', 'hashmap'), ('典#“B”', 'hashmap')])
+            names = rng.choice(['', '以项', '以键、值', '以键、值'])
+            lines = []
+            for _ in range(rng.randint(1, 2)):
+                k = rng.random()
+                if k < 0.75 and self.coll_methods[ty]:
+                    m = rng.choice(self.coll_methods[ty])
+                    a = self.args() if rng.random() < 0.6 else rng.choice(['', '：键', '：值', '：键、值', '：值、键', '：1', '：“A”', '：%s' % tgt])
+                    lines.append('以%s（%s%s）' % (tgt, m, a))
+                elif k < 0.9:
+                    lines.append('%s#%s = %s' % (tgt, rng.choice(['1', '2', '“A”', '键'] if names == '以键、值' else ['1', '2', '“A”']), self.arg(1)))
+                else:
+                    lines.append('%s = %s' % (tgt.split('#')[0], rng.choice(['【】', '【=】', '【1】', '空', self.arg(1)])))
+            if rng.random() < 0.5:
+                lines.append('（显示：%s）' % rng.choice(['项', '值', '键', tgt] if names else [tgt]))
+            return pad + '%s遍历%s：\n' % (names, tgt) + '\n'.join(pad + '    ' + ln for ln in lines)
         if r < 0.74:
             return pad + '每当%s：\n%s    结束循环' % (rng.choice(['数', '文', '空', '列', '1', '“a”', '物', '未定']), pad)
         if r < 0.8:
@@ -663,6 +688,34 @@ def judge_programs(ctx, t):
     ctx.streams.append({'stream': 'programs', 'cases': n})
 
 
+def loop_cases(t):
+    """every method of the list / dictionary tables applied, inside a loop over a collection, to THAT collection: complete product
+    receivers (0–4 items / 0–3 keys) × methods × argument forms (loop variables, constants, the collection itself) × loop
+    forms × placement (every pass / one chosen pass)"""
+    recv = {'array': ['【】', '【1】', '【1，2】', '【1，“a”，【2】，4】'],
+            'hashmap': ['【=】', '【A = 1】', '【A = 1，B = 【2】，C = 3】']}
+    args = ['', '：值', '：键', '：键、值', '：值、键', '：9', '：“A”', '：甲', '：1、2', '：【7】', '：值、1', '：“新”、值']
+    cases = []
+    for ty in ('array', 'hashmap'):
+        for nm in [n for k, n in t['members'].get(ty, []) if k == 'm']:
+            for lit in recv[ty]:
+                for a in args:
+                    for form in ('以键、值', '以值'):
+                        if form == '以值' and '键' in a:
+                            continue
+                        for when in ('', '1', '2'):
+                            call = '以甲（%s%s）' % (nm, a)
+                            if when:
+                                if form == '以值' or ty == 'hashmap':
+                                    continue
+                                body = '    如果键 == %s：\n        %s\n' % (when, call)
+                            else:
+                                body = '    %s\n' % call
+                            src = '令甲设为%s\n%s遍历甲：\n%s    （显示：值）\n输出 甲\n' % (lit, form, body)
+                            cases.append('run ' + cps(src))
+    return cases
+
+
 def shrink_program(ctx, prog, answer):
     head, pre, steps = prog
     cls = answer.split(' ')[0]
@@ -717,6 +770,12 @@ SEED_PROGRAMS = [
     '定义甲：\n    其a设为1\n\n如何新建异常？\n    输入X\n    令O设为（新建甲）\n    以O（f）\n\n令E设为（新建异常：“a”）\n输出 E\n',
     '如何f？\n    输出 1/0\n\n令R设为（f）\n输出 R\n',
     '导入《@文件》\n输出 （写入文件：1、2）\n',
+    # a loop body that changes the collection being traversed
+    '令甲设为【1，2，3，4】\n以项遍历甲：\n    以甲（右移）\n输出 甲\n',
+    '令甲设为【1，2，3】\n以序、项遍历甲：\n    以甲（左移）\n    （显示：序、项）\n输出 甲\n',
+    '令甲设为【1，2，3】\n以项遍历甲：\n    甲 = 【】\n    （显示：项）\n输出 甲\n',
+    '令典设为【a = 1，b = 2，c = 3】\n以K、V遍历典：\n    以典（移除：“c”）\n    （显示：K）\n输出 典\n',
+    '令典设为【a = 1，b = 2，c = 3】\n如何看？\n    以K、V遍历典：\n        以典（移除：K）\n        （显示：K、V）\n    拦截异常：\n        输出 0\n\n（看）\n输出 典\n',
 ]
 
 
@@ -771,6 +830,9 @@ def run_streams(ctx):
     vi = varinput_cases(ctx)
     judge(ctx, 'varinput', vi, compare_model=False)
     ctx.streams.append({'stream': 'varinput', 'cases': len(vi)})
+    lc = loop_cases(t)
+    judge(ctx, 'loop-self', lc, compare_model=False)
+    ctx.streams.append({'stream': 'loop-self', 'cases': len(lc)})
     judge_programs(ctx, t)
     ctx.exhaustive = True   # arity ≤ 2 over the pools is enumerated completely
     ctx.notes.append('full product for arity ≤ 2: receivers %d × member table × pool %d (arity 2: %d²)' % (
